@@ -105,8 +105,8 @@ CLAIMED.update({
            'first, argsort positions are segment-local and realise the order, stable sorts keep equal keys in input order; segment lengths case-split. C++ method level: ListOffsetArray64 sort_next / argsort_next below the list level '
            '(the content receives exactly the covered elements with their parents, the answer is cut back into the same list lengths) and across the lists of an outer group (non-local branch: elements grouped by (outer group, position) '
            'as for reductions, every answer returns to the list and position of the element handed on; shifts for argsort); axis normalisation of Content::sort / argsort; NumpyArray::sort_next / argsort_next (the leaf: groups from parents, dtype switch, stable and unstable kernels) for bool, all integer widths and floats.',
-           'Bounds: <= 2 segments of <= 3 (ints) / 2 (floats) elements. Outside: option re-insertion in the C++ '
-           'sort_next methods, string sorting kernels. Known finding: the unstable float sort (quick_sort) does not put NaN first.', 'DESIGN.md sections 3 (C06) and 9.5', 'SMT bounded model checking of kernel and C++ method LLVM IR (llbmc + z3; node-method harness with an opaque content) against independent oracles; native replay (ASan kernels, whole-library akrun)'),
+           'IndexedOptionArray64::sort_next at the leaf level (valid entries handed on with their groups; per group the answers first, then its Nones). '
+           'Bounds: <= 2 segments of <= 3 (ints) / 2 (floats) elements. Outside: option nodes above the leaf level in sort_next, argsort through options, string sorting kernels. Known finding: the unstable float sort (quick_sort) does not put NaN first.', 'DESIGN.md sections 3 (C06) and 9.5', 'SMT bounded model checking of kernel and C++ method LLVM IR (llbmc + z3; node-method harness with an opaque content) against independent oracles; native replay (ASan kernels, whole-library akrun)'),
  'C10': mc('Narrow claim (RecordArray node only): carry(index), getitem_range_nowrap(start, stop) and field(position) of RecordArray executed from their IR on records '
            'with 0..3 opaque field contents: every field content receives the same positional request, record i of the result holds field by field what the request selects '
            'from each content (so projecting a field by position commutes with positional selection), record count and (absent) field names follow; a field position '
